@@ -234,7 +234,7 @@ def observeForward (m : MonState) (l : Nat) (f : Pub) : MonState × Fail :=
     -- an entry this member already received through one of its shared subscriptions?
     let cfg0 := lm.configs.head?.getD []
     let again := (lm.subs.zipIdx).any fun (s, i) =>
-      s.group.isSome && s.qos == f.qos && !f.payload.isEmpty &&
+      s.group.isSome && s.qos == f.qos &&
         (((histOf m s.idx).take (cfg0[i]?.getD s.start)).any (fun e => sameMessage f e))
     -- ... unless the group's cursor may have been set back for a reason the link's view cannot
     -- pin down (a persistent member left with unacknowledged forwards of ambiguous attribution)
@@ -457,7 +457,11 @@ def applyGhost (m : MonState) (g : Ghost) : MonState × Fail :=
     | some l =>
       let lm := getL m l
       let openSubs := lm.subs.filter (·.closedAt.isNone)
-      let sharedIdx := openSubs.any (fun s => (openSubs.filter (fun s' => s'.idx == s.idx)).length > 1)
+      -- two subscriptions of this connection on one log, one of which may already have ended
+      -- (its unacknowledged forwards stay in the window): recorded conflation finding, the resume
+      -- points of such a session cannot be told from the link's view
+      let sharedIdx := openSubs.any (fun s => (openSubs.filter (fun s' => s'.idx == s.idx)).length > 1 ||
+        lm.subs.any (fun s' => s'.idx == s.idx && s'.path != s.path))
       let fuzzy := lm.ambiguous || lm.configs.length != 1 || lm.pendingAcks.any (fun p => p.subIx.isNone) || sharedIdx
       let m := if clean then { m with sessions := m.sessions.filter (·.clientId != clientId) }
                else { m with sessions := m.sessions.filter (·.clientId != clientId) ++ [{ clientId, subs := resumeSubs lm, fuzzy }] }
